@@ -15,7 +15,7 @@ T = 2          # traits
 PHASED = {
     0: [((1, 0, 1, 0), (1, 1, 0, 0)), ((0, 0, 1, 1), (0, 1, 1, 1)), ((1, 1, 0, 1), (0, 0, 0, 1)), ((0, 1, 1, 0), (1, 1, 0, 1))],
     # marker 2 monomorphic (allele 1 fixed in the population), taxon 1 completely homozygous
-    1: [((1, 0, 1, 1), (0, 0, 1, 0)), ((0, 1, 1, 1), (0, 1, 1, 1)), ((1, 1, 1, 0), (1, 0, 1, 0)), ((0, 0, 1, 0), (1, 1, 1, 1))],
+    1: [((1, 0, 1, 1), (0, 0, 1, 0)), ((0, 1, 1, 1), (0, 1, 1, 1)), ((1, 1, 1, 0), (1, 0, 1, 0)), ((1, 0, 1, 1), (1, 1, 1, 1))],
     # inbred lines (both phases equal)
     2: [((1, 0, 1, 0), (1, 0, 1, 0)), ((0, 1, 1, 1), (0, 1, 1, 1)), ((1, 1, 0, 1), (1, 1, 0, 1)), ((0, 0, 1, 0), (0, 0, 1, 0))],
 }
